@@ -11,7 +11,13 @@ RULE = ("stream http: the real daemon (start_krill_daemon, in process) on a Unix
         "config-file auth provider; one case per role (random subsets of the 22 permissions as simple / config-file "
         "`cas` / complex roles with per-CA entries granting more or less than the blanket set, every 'all but one "
         "permission' role, built-in sets) plus no / wrong / admin-token credentials on both transports, a mapped and an "
-        "unmapped socket peer, testbed on and off, admin-token provider as primary; EVERY row x method of the generated "
+        "unmapped socket peer, testbed on and off, admin-token provider as primary; wrong credentials are unrelated strings AND "
+        "the neighbourhood of the genuine ones (admin token as legacy arm and as primary provider, a session token of the admin "
+        "role): every proper prefix (sampled lengths for the long session token), one more character, more text, one character "
+        "changed in front / middle / end, other letter case, white space around it (the same credential after krill's header "
+        "parsing - the model says which), nothing; all of them on a sample of gated rows with a reading and a state-changing "
+        "row of every /api/v1 family on both transports, one member per class (prefix, extension, changed character; thorough: "
+        "all) on every row; EVERY row x method of the generated "
         "route table (GET/POST/DELETE/PUT, catch-all arms included) x CA handles with/without own entry is requested; the "
         "model predicts 401/403/405/404-by-dispatch/served from the generated gates; the CAs get a parent issue each (child "
         "removed on the testbed parent's side) so that both listing endpoints (/api/v1/cas, /api/v1/bulk/cas/issues) have "
@@ -58,7 +64,9 @@ MANIFEST = {
             "operations allowed there, a request is served iff every accumulated gate allows it and otherwise answers 401/403 "
             "with no server call (all roles = all permission subsets with arbitrary per-CA entries), per-CA entry overrides the "
             "blanket grant in both directions, listings show exactly the readable CAs, built-in sets ordered and read-only free "
-            "of mutating permissions. Tie: the real daemon answers every row x method x role / credential; status class, listings, "
+            "of mutating permissions; wrong_credentials_refused: every bearer string that is not a genuine credential (Genuine: the admin "
+            "token verbatim or a session sealed under the own key - so also every near miss of one) is worth exactly no credentials and "
+            "is refused on every gated row with no server call, for both provider configurations. Tie: the real daemon answers every row x method x role / credential; status class, listings, "
             "audit actor and absence of effects are compared with the model and judged by the specification-based oracle.",
     "note": "Theorems are about the generated table and the hand-written role/serve model; the translator and the model are tied to "
             "the code by asking the real daemon every row of the table (a row the translator misread shows up as an unpredicted "
